@@ -237,9 +237,49 @@ func newCtx(m model.CommandMode, p, rev int, upw, opw string) *model.Context {
 	return ctx
 }
 
+// interesting: modes for which the full password-class matrix is run
+var interesting = map[model.CommandMode]bool{model.TRIM: true, model.EXTRACTIMAGES: true, model.LISTINFO: true, model.RESIZE: true,
+	model.SETPERMISSIONS: true, model.ROTATE: true, model.SPLIT: true, model.ADDWATERMARKS: true}
+
+func onePermissionsCase(r *vh.Run, m model.CommandMode, p, rev int, upw, opw string, valid bool) {
+	ctx := newCtx(m, p, rev, upw, opw)
+	if rev >= 5 {
+		ctx.EncKey = make([]byte, 32)
+		r.Rand.Read(ctx.EncKey) // the key value is irrelevant to the decision
+		ctx.E.Perms = make([]byte, 16)
+		if !valid {
+			ctx.E.P = int(int32(uint32(p) ^ (1 << uint(r.Rand.Intn(32))))) // /Perms written for another P
+		}
+		if err := pdfcpu.VerifC26WritePermissions(ctx); err != nil {
+			panic(err)
+		}
+		ctx.E.P = p
+	}
+	got := pdfcpu.VerifC26HandlePermissions(ctx)
+	r.Case("handlePermissions", []string{vh.Bool(valid), hx(opw), hx(upw), vh.Int(int64(m)), vh.Int(int64(p)), vh.Int(int64(rev))}, got)
+	// oracle on handlePermissions itself: any non-empty password (blank or not) is a supplied credential,
+	// so with consistent /Perms the outcome is "denied" exactly when the classified right is denied
+	if valid {
+		want := "ok"
+		if (upw != "" || opw != "") && !pdfcpu.VerifC26HasNeededPermissions(m, p, rev) {
+			want = "denied"
+		}
+		if got != want {
+			class := "credentials-supplied-but-permission-check-skipped"
+			if got == "denied" {
+				class = "no-credentials-but-denied"
+			}
+			fail(r, class, map[string]any{"mode": name(m), "P": p, "R": rev, "userPW": upw, "ownerPW": opw, "userPWhex": hx(upw), "ownerPWhex": hx(opw)},
+				"handlePermissions = "+got+", expected "+want)
+		} else {
+			r.OracleOK()
+		}
+	}
+}
+
 func handlePermissionsCases(r *vh.Run, m model.CommandMode) {
-	ms := vh.Int(int64(m))
-	pws := []struct{ upw, opw string }{{"upw", ""}, {"", "opw"}, {"upw", "opw"}, {"", ""}}
+	pws := []struct{ upw, opw string }{{"upw", ""}, {"", "opw"}, {"upw", "opw"}, {"", ""},
+		{" ", ""}, {"", " "}, {"\t", "\n"}, {"  x", "x  "}}
 	four := []uint{4, 5, 10, 11}
 	for _, rev := range []int{2, 3, 4, 5, 6} {
 		for pat := 0; pat < 16; pat++ {
@@ -254,30 +294,55 @@ func handlePermissionsCases(r *vh.Run, m model.CommandMode) {
 			}
 			p := int(int32(v))
 			for _, pw := range pws {
-				variants := []bool{true}
+				onePermissionsCase(r, m, p, rev, pw.upw, pw.opw, true)
 				if rev >= 5 {
-					variants = []bool{true, false}
+					onePermissionsCase(r, m, p, rev, pw.upw, pw.opw, false)
 				}
-				for _, valid := range variants {
-					ctx := newCtx(m, p, rev, pw.upw, pw.opw)
-					if rev >= 5 {
-						ctx.EncKey = make([]byte, 32)
-						r.Rand.Read(ctx.EncKey) // the key value is irrelevant to the decision
-						ctx.E.Perms = make([]byte, 16)
-						if !valid {
-							ctx.E.P = int(int32(uint32(p) ^ (1 << uint(r.Rand.Intn(32))))) // /Perms written for another P
-						}
-						if err := pdfcpu.VerifC26WritePermissions(ctx); err != nil {
-							panic(err)
-						}
-						ctx.E.P = p
+			}
+			// the whole password-class matrix (user x owner) for a few commands, everything denied / granted
+			if interesting[m] && (pat == 0 || pat == 15) && (rev == 2 || rev == 4 || rev == 6 || r.Thorough()) {
+				for _, u := range pwStrings {
+					for _, o := range pwStrings {
+						onePermissionsCase(r, m, p, rev, u, o, true)
 					}
-					got := pdfcpu.VerifC26HandlePermissions(ctx)
-					r.Case("handlePermissions", []string{vh.Bool(valid), vh.Bool(pw.opw == ""), vh.Bool(pw.upw == ""), ms, vh.Int(int64(p)), vh.Int(int64(rev))}, got)
 				}
 			}
 		}
 	}
+}
+
+// ---------------------------------------------------------------- password classes
+
+// hx: a password on the wire = the hex pairs of its raw bytes
+func hx(s string) string { return vh.Hex([]byte(s)) }
+
+var longU = "U" + strings.Repeat("u", 199)
+var longO = "O" + strings.Repeat("o", 299)
+
+// pwStrings: raw password values of every class (for the handlePermissions matrix)
+var pwStrings = []string{"", "x", "upw", "opw", " ", "  ", "   ", "\t", "\n", "\r\n", " \t\n ", "\u00a0", "\u3000", "  x", "x  ", " x ",
+	"a\x00b", "\x00", longU, longO, "p\u00e4ssw\u00f6rd", "\u5bc6\u7801"}
+
+type pwPair struct{ label, upw, opw string }
+
+// pwPairs: (user, owner) password pairs a document is encrypted with, by class. The user password is never empty.
+var pwPairs = []pwPair{
+	{"user-1-space", " ", "opw"},
+	{"user-2-spaces", "  ", "opw"},
+	{"user-3-spaces", "   ", "opw"},
+	{"user-tab", "\t", "opw"},
+	{"user-newline", "\n", "opw"},
+	{"user-mixed-whitespace", " \t\n ", "opw"},
+	{"user-nbsp", "\u00a0", "opw"},
+	{"both-whitespace-only", " ", "  "},
+	{"owner-1-space", "upw", " "},
+	{"owner-tab-newline", "upw", "\t\n"},
+	{"leading-trailing-whitespace", "  x", "y  "},
+	{"user-trims-to-owner", " o ", "o"},
+	{"owner-trims-to-user", "u", "\tu\n"},
+	{"nul-containing", "a\x00b", "c\x00d"},
+	{"very-long", longU, longO},
+	{"non-ascii", "p\u00e4ssw\u00f6rd", "\u5bc6\u7801"},
 }
 
 // ---------------------------------------------------------------- part B (end to end)
@@ -489,6 +554,63 @@ func safeRun(o op, b []byte, c *model.Configuration, tmp string) (res string) {
 	return classify(err)
 }
 
+func permsOf(klen int) int { return map[int]int{40: 2, 128: 4, 256: 5}[klen] }
+
+// e2eDoc encrypts src with (upw, opw, perm) under cfg and runs the operations with the credentials.
+func e2eDoc(r *vh.Run, table map[model.CommandMode][2]int, tmp, doc string, src []byte, cfg encCfg, perm int, pwClass, upw, opw string,
+	opsSel []op, creds []cred, keep func(ci int) bool) {
+	conf := model.NewDefaultConfiguration()
+	conf.UserPW, conf.OwnerPW = upw, opw
+	conf.EncryptUsingAES, conf.EncryptKeyLength = cfg.aes, cfg.klen
+	conf.Permissions = model.PermissionFlags(perm)
+	var buf bytes.Buffer
+	if err := api.Encrypt(bytes.NewReader(src), &buf, conf); err != nil {
+		if pwClass == "ordinary" {
+			panic(fmt.Sprintf("encrypt %s %s %x: %v", doc, cfg.label, perm, err))
+		}
+		// e.g. SASLprep (AES-256) prohibits control characters: such a document cannot exist
+		r.Count("e2e:encrypt-rejects-password:" + pwClass + "/" + cfg.label)
+		return
+	}
+	enc := buf.Bytes()
+	// what the file says (read with the owner password)
+	rc := model.NewDefaultConfiguration()
+	rc.OwnerPW = opw
+	ctx, err := api.ReadContext(bytes.NewReader(enc), rc)
+	if err != nil {
+		// the owner password must always open the document this harness has just encrypted
+		in := map[string]any{"doc": doc, "cipher": cfg.label, "permissions": perm, "credentials": "owner-only", "op": "ReadContext", "passwords": pwClass}
+		if errors.Is(err, pdfcpu.ErrPermissionDenied) {
+			fail(r, "owner-password-denied", in, "the owner password was supplied and reading was refused for permission reasons")
+		} else {
+			fail(r, "owner-password-cannot-reopen", in, classify(err))
+		}
+	}
+	// P and R as api.Encrypt writes them (newEncryptDict); confirmed from the file when it can be read
+	p, rev := int(int16(perm)), permsOf(cfg.klen)
+	if err == nil {
+		if ctx.E.P != p || ctx.E.R != rev {
+			r.Count("e2e:P-or-R-differs-from-expected")
+		}
+		p, rev = ctx.E.P, ctx.E.R
+	}
+	r.Count(fmt.Sprintf("e2e:R=%d", rev))
+	r.Count("e2e:passwords:" + pwClass)
+	for _, o := range opsSel {
+		for ci, cr := range creds {
+			if !keep(ci) {
+				continue
+			}
+			c := model.NewDefaultConfiguration()
+			c.UserPW, c.OwnerPW = cr.upw, cr.opw
+			got := safeRun(o, enc, c, tmp)
+			r.Case("access", []string{"true", vh.Bool(cr.ownerOK), vh.Bool(cr.userOK), "true", hx(cr.opw), hx(cr.upw),
+				vh.Int(int64(o.mode)), vh.Int(int64(p)), vh.Int(int64(rev))}, got)
+			oracleB(r, table, doc, cfg, pwClass, o, cr, p, rev, got)
+		}
+	}
+}
+
 func partB(r *vh.Run, table map[model.CommandMode][2]int) {
 	repo := os.Getenv("VERIF_REPO")
 	if repo == "" {
@@ -520,6 +642,14 @@ func partB(r *vh.Run, table map[model.CommandMode][2]int) {
 		{"wrong", "nope", "", false, false},
 	}
 	all := ops()
+	// operations run for the password classes
+	var few []op
+	for _, o := range all {
+		switch o.name {
+		case "info", "optimize", "split", "extractContent", "trim", "rotate", "addWatermarks", "resize", "decrypt", "setPermissions":
+			few = append(few, o)
+		}
+	}
 	for _, s := range samples {
 		src, err := os.ReadFile(filepath.Join(repo, "pkg", "testdata", s))
 		if err != nil {
@@ -530,7 +660,7 @@ func partB(r *vh.Run, table map[model.CommandMode][2]int) {
 			c := model.NewDefaultConfiguration()
 			c.UserPW = "upw"
 			got := safeRun(o, src, c, tmp)
-			r.Case("access", []string{"false", "false", "false", "true", "true", "false", vh.Int(int64(o.mode)), "0", "0"}, got)
+			r.Case("access", []string{"false", "false", "false", "true", hx(""), hx("upw"), vh.Int(int64(o.mode)), "0", "0"}, got)
 			if got == "denied" {
 				fail(r, "unencrypted-denied", map[string]any{"doc": s, "op": o.name}, "an unencrypted document was refused for permission reasons")
 			} else {
@@ -542,57 +672,32 @@ func partB(r *vh.Run, table map[model.CommandMode][2]int) {
 				if !r.Thorough() && pi >= 2 && (pi+len(cfg.label))%2 == 1 && cfg.klen != 40 {
 					continue // quick tier: half of the single-bit permission sets per cipher (all of them for RC4-40 = revision 2)
 				}
-				conf := model.NewDefaultConfiguration()
-				conf.UserPW, conf.OwnerPW = "upw", "opw"
-				conf.EncryptUsingAES, conf.EncryptKeyLength = cfg.aes, cfg.klen
-				conf.Permissions = model.PermissionFlags(perm)
-				var buf bytes.Buffer
-				if err := api.Encrypt(bytes.NewReader(src), &buf, conf); err != nil {
-					panic(fmt.Sprintf("encrypt %s %s %x: %v", s, cfg.label, perm, err))
+				pi := pi
+				e2eDoc(r, table, tmp, s, src, cfg, perm, "ordinary", "upw", "opw", all, creds,
+					func(ci int) bool { return r.Thorough() || ci < 2 || (pi+ci)%3 == 0 })
+			}
+			// password classes: whitespace-only / padded / trims-to-the-other / NUL / long / non-ASCII, for user and owner;
+			// opened with user-only, owner-only, both, none
+			for qi, pw := range pwPairs {
+				cl := []cred{{"user-only", pw.upw, "", false, true}, {"owner-only", "", pw.opw, true, false},
+					{"both", pw.upw, pw.opw, true, true}, {"none", "", "", false, false}}
+				pp := []int{none}
+				if r.Thorough() {
+					pp = []int{none, int(model.PermissionsAll), none | 0x10 | 0x200, none | 0x08 | 0x400}
+				} else if qi%2 == 0 {
+					pp = []int{none, none | 0x10 | 0x200} // extract granted, modify denied
 				}
-				enc := buf.Bytes()
-				// what the file says (read with the owner password)
-				rc := model.NewDefaultConfiguration()
-				rc.OwnerPW = "opw"
-				ctx, err := api.ReadContext(bytes.NewReader(enc), rc)
-				if err != nil {
-					// the owner password must always open the document this harness has just encrypted
-					in := map[string]any{"doc": s, "cipher": cfg.label, "permissions": perm, "credentials": "owner-only", "op": "ReadContext"}
-					if errors.Is(err, pdfcpu.ErrPermissionDenied) {
-						fail(r, "owner-password-denied", in, "the owner password was supplied and reading was refused for permission reasons")
-					} else {
-						fail(r, "owner-password-cannot-reopen", in, classify(err))
-					}
-				}
-				// P and R as api.Encrypt writes them (newEncryptDict); confirmed from the file when it can be read
-				p, rev := int(int16(perm)), map[int]int{40: 2, 128: 4, 256: 5}[cfg.klen]
-				if err == nil {
-					if ctx.E.P != p || ctx.E.R != rev {
-						r.Count("e2e:P-or-R-differs-from-expected")
-					}
-					p, rev = ctx.E.P, ctx.E.R
-				}
-				r.Count(fmt.Sprintf("e2e:R=%d", rev))
-				for _, o := range all {
-					for ci, cr := range creds {
-						if !r.Thorough() && ci >= 2 && (pi+ci)%3 != 0 {
-							continue
-						}
-						c := model.NewDefaultConfiguration()
-						c.UserPW, c.OwnerPW = cr.upw, cr.opw
-						got := safeRun(o, enc, c, tmp)
-						r.Case("access", []string{"true", vh.Bool(cr.ownerOK), vh.Bool(cr.userOK), "true", vh.Bool(cr.opw == ""), vh.Bool(cr.upw == ""),
-							vh.Int(int64(o.mode)), vh.Int(int64(p)), vh.Int(int64(rev))}, got)
-						oracleB(r, table, s, cfg, o, cr, p, rev, got)
-					}
+				for _, perm := range pp {
+					e2eDoc(r, table, tmp, s, src, cfg, perm, pw.label, pw.upw, pw.opw, few, cl, func(int) bool { return true })
 				}
 			}
 		}
 	}
 }
 
-func oracleB(r *vh.Run, table map[model.CommandMode][2]int, doc string, cfg encCfg, o op, cr cred, p, rev int, got string) {
-	in := map[string]any{"doc": doc, "cipher": cfg.label, "op": o.name, "mode": name(o.mode), "P": p, "R": rev, "credentials": cr.label}
+func oracleB(r *vh.Run, table map[model.CommandMode][2]int, doc string, cfg encCfg, pwClass string, o op, cr cred, p, rev int, got string) {
+	in := map[string]any{"doc": doc, "cipher": cfg.label, "op": o.name, "mode": name(o.mode), "P": p, "R": rev, "credentials": cr.label,
+		"passwords": pwClass, "userPWhex": hx(cr.upw), "ownerPWhex": hx(cr.opw)}
 	ok := true
 	if strings.HasPrefix(got, "panic:") {
 		fail(r, "panic-in-operation", in, got)
